@@ -457,3 +457,37 @@ Example C17_tables_instance :
   gm_backoff_next = [GmCheckedMul 2; GmUnwrapOr "max_delay"; GmMin "max_delay"] /\
   length gm_handlers = 15%nat.
 Proof. repeat split. Qed.
+
+(* ---- the received fragment COMPUTED from the octets (Master/MSFull.v, engine `msfull`, second pass of the
+   check): [ms_rx_of frag] is the record the scheduling model consumes; header = the task model's parser
+   (= application-layer header parser + to_response, C15_composed_header_parser_is_grammar), `ok` = the Grammar
+   verdict, values = what the conversion model of C10 delivers to the callbacks the harness overrides.
+   Lemmas in Master/MSFullProofs.v. *)
+From Dnp3V Require Import App.Grammar Master.MParse Master.MTask Master.MFull Master.MSFull Master.MSFullProofs.
+Local Open Scope N_scope.
+
+Theorem C17_composed_rx_rejected_iff_header : forall frag,
+  ms_rx_of frag = MsRxBad <-> MP.parse_response frag = MP.PError.
+Proof. exact ms_rx_of_bad. Qed.
+Print Assumptions C17_composed_rx_rejected_iff_header.
+
+Theorem C17_composed_rx_fields : forall frag h objs,
+  MP.parse_response frag = MP.PResponse h objs ->
+  exists f, ms_rx_of frag = MsRxResp f /\
+    ms_r_objs f = objs /\ ms_r_seq f = MP.c_seq (MP.h_ctrl h) /\ ms_r_uns f = MP.h_unsol h /\
+    ms_r_iin1 f = MP.h_iin1 h /\ ms_r_iin2 f = MP.h_iin2 h /\
+    (ms_r_ok f = true <-> MF.mverdict frag = MT.VOk) /\
+    (ms_r_ok f = false -> ms_r_nvalues f = 0 /\ ms_r_delay f = None).
+Proof. exact ms_rx_of_resp. Qed.
+Print Assumptions C17_composed_rx_fields.
+
+Example C17_composed_rx_instance :
+  match ms_rx_of [192; 129; 0; 0; 52; 2; 8; 1; 0; 44; 1] with
+  | MsRxResp f => ms_r_ok f = true /\ ms_r_delay f = Some 300%Z /\ ms_r_nvalues f = 0
+  | MsRxBad => False
+  end /\
+  match ms_rx_of [192; 129; 0; 0; 1; 1; 0; 0; 9; 255; 3; 31; 5; 0; 7; 7; 1; 0; 0; 0; 110; 2; 0; 1; 1; 65; 66] with
+  | MsRxResp f => ms_r_ok f = true /\ ms_r_nvalues f = 10
+  | MsRxBad => False
+  end /\ ms_rx_of [208; 129; 0; 0] = MsRxBad.
+Proof. vm_compute. repeat split. Qed.
